@@ -82,11 +82,22 @@ def main(argv=None):
               if tier == 'thorough' or not u.get('thorough_only')]
     jobs = int(os.environ.get('VERIF_JOBS', '0') or 0) or min(8, max(1, len(units_)))
     results = []
-    if jobs == 1 or len(units_) == 1:
-        results = [run_unit(u) for u in units_]
-    else:
-        with ProcessPoolExecutor(max_workers=jobs) as ex:
-            results = list(ex.map(run_unit, units_))
+    import shutil
+    import tempfile
+    scratch = tempfile.mkdtemp(prefix='pyvc-check-')
+    os.environ['VERIF_K3_CACHE'] = os.path.join(scratch, 'k3cache.json')
+    try:
+        if any(str(u.get('target', '')).startswith('k3::') or u.get('needs_k3') for u in units_):
+            # compile every schema once, in this process; workers read the cache
+            from pyvc import units as _u
+            _u.registry()
+        if jobs == 1 or len(units_) == 1:
+            results = [run_unit(u) for u in units_]
+        else:
+            with ProcessPoolExecutor(max_workers=jobs) as ex:
+                results = list(ex.map(run_unit, units_))
+    finally:
+        shutil.rmtree(scratch, ignore_errors=True)
     from pyvc import report
     return report.conclude(pid, P, tier, seed, results, time.time() - t0)
 
